@@ -11,11 +11,11 @@ import (
 func init() {
 	register(&Property{
 		ID:          "C38",
-		Roots:       []string{"gadget"},
+		Roots:       []string{"gadget", "gadget/install"},
 		Technique:   "must-call on every accepting path of validateVolume and its callers; accumulator provenance and sibling agreement between validateCrossVolumeStructure and OnDiskStructsFromGadget (SSA); per-iteration gates in layOutStructureContent (loop latch gating on the CFG); unsignedness of quantity.Offset/Size (types)",
 		Explanation: "Structural necessary conditions of 'accepted gadget volumes lay out into disjoint structures' (the arithmetic over all volume definitions is not decided): (R1) validateVolume accepts only with the verdict of validateCrossVolumeStructure on the same volume, and every caller fails when it fails; (R2) validateCrossVolumeStructure tracks the end of the previous structure as offset+Size (explicit offset) or previous end+Size (implicit), refuses an explicit offset below it, and OnDiskStructsFromGadget - which places the structures - advances by the same field (Size) and starts each structure at the explicit offset or the running end; (R3) layOutStructureContent checks on every iteration that the content placed ends inside the structure (the check gates the loop's back edge and exit), places content at structure start + offset, and after sorting refuses content starting before the end of the preceding one; (R4) offsets and sizes are unsigned quantities, so 'non-negative offset' holds by type.",
 		NotDecided:  "absence of overflow in offset+size; min-size/partial-size volumes after installer finalisation (ApplyInstallerVolumesToGadget) beyond the validateVolume call; filesystem content.",
-		Run:         runC38,
+		Run:         func(c *Ctx) { runC38(c); runC38z(c) },
 	})
 }
 
@@ -129,6 +129,46 @@ func runC38(c *Ctx) {
 		}
 		if adv == 0 {
 			c.Undecided(fmt.Sprintf("%s.%s#running-end", pkg, fnName), fn.Pos(), "no advance of the running end found")
+		}
+		// every iteration advances: what flows back into the loop header is a sum on every path
+		hb := acc.Block()
+		for i, e := range acc.Edges {
+			if !hb.Dominates(hb.Preds[i]) {
+				continue // loop entry
+			}
+			var back []FlowPoint
+			seen := map[*ssa.Phi]bool{acc: true}
+			stale := false
+			var walk func(v ssa.Value)
+			walk = func(v ssa.Value) {
+				v = Strip(v)
+				if v == ssa.Value(acc) {
+					stale = true
+					return
+				}
+				if ph, ok := v.(*ssa.Phi); ok {
+					if seen[ph] {
+						return
+					}
+					seen[ph] = true
+					for _, e2 := range ph.Edges {
+						walk(e2)
+					}
+					return
+				}
+				back = append(back, FlowPoint{Val: v})
+			}
+			walk(e)
+			for _, lf := range back {
+				if bo, ok := lf.Val.(*ssa.BinOp); !ok || bo.Op != token.ADD {
+					stale = true
+				}
+			}
+			hpos := hb.Instrs[len(hb.Instrs)-1].Pos()
+			if !hpos.IsValid() {
+				hpos = fn.Pos()
+			}
+			c.Check(!stale, fmt.Sprintf("%s.%s#running-end-advanced-every-iteration", pkg, fnName), hpos, "the next iteration always sees start+Size of this one", "an iteration can hand the running end on without adding the structure's Size (conditional advance): the next structure without an explicit offset is placed over this one")
 		}
 	}
 	if cmp == nil {
